@@ -142,6 +142,12 @@ class LexInterp:
             return True
         return False
 
+    def is_source(self, e, st):
+        """``self._source`` or a local bound to it (``source = self._source``; a helper's parameter)."""
+        if isinstance(e, ast.Attribute) and e.attr == "_source" and isinstance(e.value, ast.Name) and e.value.id == "self":
+            return True
+        return isinstance(e, ast.Name) and st.env.get(e.id) == ("source",)
+
     def pos_of(self, e, st):
         """absolute offset denoted by a cursor expression, or None."""
         if self.is_cursor(e):
@@ -178,11 +184,12 @@ class LexInterp:
                     return [(st, ("const", False))]
                 if e.attr == "_started":
                     return [(st, ("const", True))]
+                if e.attr == "_source":
+                    return [(st, ("source",))]
                 return [(st, ("opaque",))]
             return [(st, ("opaque",))]
         if isinstance(e, ast.Subscript):
-            base = ast.unparse(e.value)
-            if base == "self._source":
+            if self.is_source(e.value, st):
                 if isinstance(e.slice, ast.Slice):
                     a = self.pos_of(e.slice.lower, st) if e.slice.lower is not None else None
                     b = self.pos_of(e.slice.upper, st) if e.slice.upper is not None else None
@@ -319,6 +326,63 @@ class LexInterp:
             s2.env = dict(saved)
             res.append((s2, val))
         return res
+
+    def module_function(self, name):
+        for f in self.prog.all_funcs():
+            if f.module is self.module and f.cls is None and f.parent is None and f.name == name:
+                return f
+        return None
+
+    def invoke_cursor_helper(self, f, call, st):
+        """``<cursor> = helper(<source>, <cursor expr>, consts...)``: a module-level function that is handed the source
+        and a position at or after the cursor and returns the new position.  Inside it the position parameter *is* the
+        cursor (the caller stores the result back into the cursor), so every return must return that parameter."""
+        if len(self.stack) > 12:
+            raise Unsupported("inline depth")
+        a = f.node.args
+        params = [x.arg for x in a.args]
+        if call.keywords or len(call.args) != len(params) or a.vararg or a.kwarg or a.kwonlyargs:
+            raise Unsupported("cursor helper call shape `%s`" % ast.unparse(call))
+        s = st.clone()
+        saved = s.env
+        env = {}
+        cursor_param = None
+        for p, arg in zip(params, call.args):
+            if self.is_source(arg, s):
+                env[p] = ("source",)
+                continue
+            off = self.pos_of(arg, s)
+            if off is not None and off != "?":
+                if cursor_param is not None or off < s.c:
+                    raise Unsupported("cursor helper called with two positions or a position before the cursor: `%s`" % ast.unparse(call))
+                s = self.consume(s, off - s.c, "%s:%d" % (self.stack[-1], call.lineno))
+                if s is None:
+                    return []
+                cursor_param = p
+                continue
+            vals = self.ev(arg, s)
+            if len(vals) != 1 or vals[0][1][0] != "const":
+                raise Unsupported("cursor helper argument `%s`" % ast.unparse(arg))
+            env[p] = vals[0][1]
+        if cursor_param is None:
+            raise Unsupported("cursor assigned from a helper that is not given a position: `%s`" % ast.unparse(call))
+        s.env = env
+        self.stack.append(f.name)
+        self.alias[f.name] = cursor_param
+        try:
+            paths = self.block(f.node.body, s)
+        finally:
+            self.stack.pop()
+        out = []
+        for s2, status, val in paths:
+            if status == "raise":
+                continue
+            if status != "return" or val != ("pos", s2.c):
+                raise Unsupported("cursor helper %s does not return its position on every path" % f.name)
+            s2 = s2.clone()
+            s2.env = dict(saved)
+            out.append(s2)
+        return out
 
     # ------------------------------------------------------------ conditions
     def split(self, st, off, atoms):
@@ -461,6 +525,10 @@ class LexInterp:
                     raise Unsupported("cursor moved backwards at line %s" % n.lineno)
                 s = self.consume(st, off - st.c, "%s:%d" % (self.stack[-1], n.lineno))
                 return [(s, "next", None)] if s else []
+            if self.is_cursor(tgt) and isinstance(n.value, ast.Call) and isinstance(n.value.func, ast.Name):
+                helper = self.module_function(n.value.func.id)
+                if helper is not None:
+                    return [(s, "next", None) for s in self.invoke_cursor_helper(helper, n.value, st)]
             res = []
             for s, v in self.ev(n.value, st):
                 s = s.clone()
@@ -534,7 +602,7 @@ class LexInterp:
             a = n.body[0]
             tgt = a.targets[0] if isinstance(a, ast.Assign) else a.target
             v = a.value
-            if isinstance(tgt, ast.Name) and isinstance(v, ast.Subscript) and ast.unparse(v.value) == "self._source" and not isinstance(v.slice, ast.Slice):
+            if isinstance(tgt, ast.Name) and isinstance(v, ast.Subscript) and self.is_source(v.value, st) and not isinstance(v.slice, ast.Slice):
                 off = self.pos_of(v.slice, st)
                 if off is None or off == "?":
                     raise Unsupported("read at `%s`" % ast.unparse(v.slice))
